@@ -115,7 +115,7 @@ def run(check, an: Analysis):
                   or (e.kind == 'handler' and e['exc'] == 'ext:KeyError')]
         created = [i for i, e in enumerate(path.events) if e.kind == 'call'
                    and isinstance(e.node, ast.Call)
-                   and ast.unparse(e.node.func) == 'MetaConcurrent']
+                   and rules.text_at(path, e, e.node.func) == 'MetaConcurrent']
         stored = [i for i, e in enumerate(path.events) if e.kind == 'store'
                   and e.get('base') and e['base'].endswith('__specialisations__')]
         if created:
